@@ -39,6 +39,25 @@ def main(tier, seed, replay=None):
                {"patience": 1}, {"ftol": zero, "xtol": zero}][i % 4]
         cases.append(statsrun.gen_stats_case(rng, M, P, M + P + rng.randint(2, 8), scalar=sc, weights=rng.choice(["none", "pos"]),
                                              noise=0.1, cfg=cfg, ctor=("new_parallel" if i % 3 == 0 else "new")))
+    # the model errs WHILE THE STATISTICS ARE COMPUTED (the last calls of a successful run): a transient or persistent failure at
+    # each of the final call indices — Err expected, never Ok with statistics, never a panic
+    import copy
+    fbases = [statsrun.gen_stats_case(rng, M, P, M + P + 3 + j, scalar="f64", weights=["none", "pos"][j % 2], quant=8, probs=[0.683])
+              for j, (M, P) in enumerate([(2, 1), (2, 2), (1, 1), (3, 2)] if tier == "quick" else COMBOS)]
+    for j, b in enumerate(fbases):
+        b["id"] = 8000 + j
+    fb_res = run_harness(build_harness("dev"), "scenario", fbases, workdir, timeout_ms=20000, tag="fbase")
+    for b, r in zip(fbases, fb_res):
+        if r.get("steps") is None or r["head"].get("build") != "ok" or not r["steps"][1]["v"].get("ok"):
+            continue
+        K = len(r["steps"][-1]["log"])
+        P = b["meta"]["P"]
+        for k in range(max(0, K - (P + 4)), K):
+            for plan in ({"at": [k]}, {"persistent_from": k}):
+                c = copy.deepcopy(b)
+                c["faults"] = plan
+                c["meta"]["fault_plan"] = plan
+                cases.append(c)
     for i, c in enumerate(cases):
         c["id"] = i
     total_terms = 0
